@@ -240,6 +240,86 @@ func CheckResume(w *core.Worker, c *Case, cuts []int, op view.MsgOpt) (res Resum
 	return
 }
 
+// lateFlagger is implemented by the objects whose parser has an end-of-input flag.
+type lateFlagger interface{ setEndInput(on bool) }
+
+// CheckLateEnd: a receiver learns only at the end that no more input will come, so the
+// end-of-input flag (POptInputEndF / SIPMsgNoMoreDataF) is absent on every call but the last.
+// For a configuration that has the flag, the object is driven along cuts with the flag OFF; if
+// it is still suspended when the last cut (the whole buffer) is reached, that last call carries
+// the flag and must give what a fresh object gives for one call with the flag on the whole
+// buffer (verdict, offset, view).
+func CheckLateEnd(w *core.Worker, c *Case, cuts []int, op view.MsgOpt) (ran bool) {
+	if !c.P.EndInput(c.Cfg) || len(cuts) < 2 {
+		return
+	}
+	s := sc(w)
+	R := c.P.New(c.Cfg)
+	lf, ok := R.(lateFlagger)
+	if !ok {
+		return
+	}
+	lf.setEndInput(false)
+	o := c.Start
+	var n int
+	var e sipsp.ErrorHdr
+	var pan, stk string
+	for ci, cut := range cuts {
+		if cut < c.Start {
+			continue
+		}
+		last := ci == len(cuts)-1
+		if last {
+			lf.setEndInput(true)
+		}
+		n, e, pan, stk = safeCall(R, s.isoPrefix(c.Buf[:cut], ci), o)
+		w.Eval(1)
+		if pan != "" {
+			break
+		}
+		if last {
+			break
+		}
+		if e != sipsp.ErrHdrMoreBytes {
+			return // definitive before the end: the ordinary schedules judge this
+		}
+		o = n
+	}
+	full := cuts[len(cuts)-1]
+	F := c.P.New(c.Cfg)
+	nf, ef, panf, _ := safeCall(F, s.exactPrefix(c.Buf[:full]), c.Start)
+	ran = true
+	w.Inc("late_end_flag_runs")
+	bad := ""
+	switch {
+	case pan != "" || panf != "":
+		if pan != panf {
+			bad = fmt.Sprintf("resumed panic=%q fresh panic=%q", pan, panf)
+		}
+	case n != nf || e != ef:
+		bad = fmt.Sprintf("the last call returned (offs=%d, %s) but one call with the flag on the whole buffer returns (offs=%d, %s)", n, errName(e), nf, errName(ef))
+	case e != sipsp.ErrHdrMoreBytes:
+		p1 := viewOf(&s.v1, R, full, op, false)
+		p2 := viewOf(&s.v2, F, full, op, false)
+		if p1 != "" || p2 != "" || !view.Equal(&s.v1, &s.v2) {
+			viewOf(&s.v1, R, full, op, true)
+			viewOf(&s.v2, F, full, op, true)
+			bad = "the parsed values differ: " + view.Diff(&s.v1, &s.v2)
+		}
+	}
+	if bad != "" {
+		cutsCopy := append([]int(nil), cuts...)
+		w.Fail("late-end-flag/"+c.P.Name, func() *core.Violation {
+			d := c.detail()
+			d["cuts"] = cutsCopy
+			v := core.V(fmt.Sprintf("%s: end-of-input flag given only on the last of %d calls: %s", c.P.Name, len(cutsCopy), bad), c.Buf, d)
+			v.Stack = stk
+			return v
+		})
+	}
+	return
+}
+
 // ---- cut schedules ----
 
 // CutsEveryPrefix is schedule S1: start+0 .. len in one-byte steps.
